@@ -247,7 +247,8 @@ def tasks(tier, seed):
             compose.append(dict(seed=int(seed) + i + 10 * j,
                                 world=dict(taxonomy=s, ref_encoding=re_, encoding=qe, n_query=8,
                                            n_genes=int(rng.choice([18, 24, 30])), n_cells_per_leaf=int(rng.choice([4, 6, 9])),
-                                           n_per_utility=int(rng.choice([1, 3, 5]))),
+                                           n_per_utility=int(rng.choice([1, 3, 5])),
+                                           n_unlabelled=(4 if (i + j) % 2 == 0 else 0)),
                                 config=dict(csv=True, hdf5=True)))
     if not quick:
         for r in range(12):
